@@ -7,12 +7,12 @@ around `resendBody`), corollaries of the chain relation, the journal below the r
 namespace AsyncFix.Session.C06
 open Msg AsyncFix.Generated AsyncFix.Generated.ConnEnum
 
-/-- the connection after `_process_resend` served `[b, …]` writing `sent`: outbound rows from `b` on
-replaced, inbound side of `set_seq_num`, ACTIVE remembered -/
-def answered (c : Conn) (b : Int) (sent : Rows) : Conn :=
+/-- the connection after `_process_resend` served `[b, …]` writing `sent`: outbound rows from `b` up to
+EndSeqNo replaced, the rows `tail` after it as they were, inbound side of `set_seq_num`, ACTIVE remembered -/
+def answered (c : Conn) (b : Int) (sent tail : Rows) : Conn :=
   { c with
     wasActive := c.wasActive || (c.state == st_ACTIVE)
-    journal := { out := c.journal.out.below b ++ sent, inb := c.journal.inb.below c.sess.nextIn,
+    journal := { out := c.journal.out.below b ++ sent ++ tail, inb := c.journal.inb.below c.sess.nextIn,
                  outSeq := c.sess.nextOut - 1, inSeq := c.sess.nextIn - 1 } }
 
 /-- the connection after `_process_resend` ignored a request -/
@@ -28,13 +28,15 @@ theorem processResend_valid (env : Env) (sr : Msg → Bool) (m : Msg) (c : Conn)
     (hl1 : isLatin1 c.sess.sender = true) (hl2 : isLatin1 c.sess.target = true)
     (hl3 : isLatin1 env.stamp = true)
     (hreq : Req m b e0) (hinv : OutInv c) (hb1 : 1 ≤ b) (hb2 : b < c.sess.nextOut)
-    (he : e0 = 0 ∨ c.sess.nextOut - 1 ≤ e0) (hmax : c.sess.nextOut - 1 ≤ sysMaxsize) :
+    (hmax : c.sess.nextOut - 1 ≤ sysMaxsize) :
     ∃ sent : Rows,
       processResend env sr m c =
-        ⟨.ok (), answered c b sent, pre c ++ sent.map (fun p => Effect.write p.2) ++ post c⟩ ∧
-      Chain c.sess c.journal.out sr b c.sess.nextOut (sent.map (·.2)) ∧
-      Rows.Sorted (c.journal.out.below b ++ sent) ∧
-      Rows.AllLt c.sess.nextOut (c.journal.out.below b ++ sent) ∧
+        ⟨.ok (), answered c b sent (tailRows c b e0),
+          pre c ++ sent.map (fun p => Effect.write p.2) ++ post c⟩ ∧
+      Chain c.sess c.journal.out sr b (chainEnd c b e0) (sent.map (·.2)) ∧
+      Rows.Sorted (c.journal.out.below b ++ sent ++ tailRows c b e0) ∧
+      Rows.AllLt c.sess.nextOut (c.journal.out.below b ++ sent ++ tailRows c b e0) ∧
+      Rows.AllLt (chainEnd c b e0) (c.journal.out.below b ++ sent) ∧
       (∀ p ∈ sent, RowOK p.1 p.2 ∧ b ≤ p.1) := by
   rw [processResend_eq]
   rcases hst with h | h
@@ -47,17 +49,20 @@ theorem processResend_valid (env : Env) (sr : Msg → Bool) (m : Msg) (c : Conn)
       simp [stateSet, M.bind_apply, c1]
     have hctx1 : LoopCtx env c1 := ⟨⟨Or.inl rfl, hsock⟩, hl1, hl2, hl3⟩
     have hinv1 : OutInv c1 := ⟨hinv.sorted, hinv.lt, hinv.rows, hinv.stored⟩
-    obtain ⟨sent, e1, ch, so, lt, ok⟩ :=
-      resendBody_valid env sr m c1 b e0 hreq hctx1 hinv1 hb1 hb2 he hmax
-    refine ⟨sent, ?_, ch, so, lt, ok⟩
+    obtain ⟨sent, e1, ch, so, lt, ltz, ok⟩ :=
+      resendBody_valid env sr m c1 b e0 hreq hctx1 hinv1 hb1 hb2 hmax
+    refine ⟨sent, ?_, ch, so, lt, ltz, ok⟩
+    have ht : tailRows c1 b e0 = tailRows c b e0 := rfl
+    rw [ht] at e1
     rw [M.bind_ok2 e0' e1]
-    simp [served, answered, pre, post, h, c1, st_RESENDREQ_HANDLING, st_RESENDREQ_AWAITING, st_ACTIVE]
+    simp [served, answered, pre, post, h, c1, st_RESENDREQ_HANDLING, st_RESENDREQ_AWAITING,
+      st_ACTIVE]
   · have hne : (c.state != st_RESENDREQ_AWAITING) = false := by rw [h]; decide
     simp only [hne, Bool.false_eq_true, if_false]
     have hctx : LoopCtx env c := ⟨⟨Or.inr h, hsock⟩, hl1, hl2, hl3⟩
-    obtain ⟨sent, e1, ch, so, lt, ok⟩ :=
-      resendBody_valid env sr m c b e0 hreq hctx hinv hb1 hb2 he hmax
-    refine ⟨sent, ?_, ch, so, lt, ok⟩
+    obtain ⟨sent, e1, ch, so, lt, ltz, ok⟩ :=
+      resendBody_valid env sr m c b e0 hreq hctx hinv hb1 hb2 hmax
+    refine ⟨sent, ?_, ch, so, lt, ltz, ok⟩
     rw [e1]
     simp [served, answered, pre, post, h, st_RESENDREQ_AWAITING, st_ACTIVE]
 
@@ -144,16 +149,16 @@ theorem chain_seqs {s : Session} {J : Rows} {sr : Msg → Bool} {a z : Int} {xs 
       · have := rg n hn; omega
 
 /-- rows below the requested range are what they were -/
-theorem find_below_append {J sent : Rows} {b n : Int} (hJ : Rows.Sorted J)
-    (hs : Rows.Sorted (J.below b ++ sent)) (hsent : ∀ p ∈ sent, b ≤ p.1) (hn : n < b) :
-    (J.below b ++ sent).find n = J.find n := by
+theorem find_below_append {J rest : Rows} {b n : Int} (hJ : Rows.Sorted J)
+    (hs : Rows.Sorted (J.below b ++ rest)) (hrest : ∀ p ∈ rest, b ≤ p.1) (hn : n < b) :
+    (J.below b ++ rest).find n = J.find n := by
   apply Option.ext
   intro x
   rw [Rows.find_eq_some_iff hs, Rows.find_eq_some_iff hJ, List.mem_append, Rows.mem_below]
   constructor
   · rintro (h | h)
     · exact h.1
-    · have := hsent _ h; simp at this; omega
+    · have := hrest _ h; simp at this; omega
   · intro h; exact Or.inl ⟨h, hn⟩
 
 theorem writes_append (a b : List Effect) : writes (a ++ b) = writes a ++ writes b := by
